@@ -11,7 +11,7 @@ use crate::oracle::*;
 use serde_json::{Value, json};
 
 /// (name, text before the item; § = the item's first line follows directly, pure trivia change?)
-const LAYOUTS: [(&str, &str, bool); 34] = [
+const LAYOUTS: [(&str, &str, bool); 38] = [
     ("plain", "#[derive(ToString, ToJson)]\n§", true),
     ("trailing-line-comment", "#[derive(ToString, ToJson)] // show it\n§", true),
     ("trailing-comment-closing-bracket", "#[derive(ToString, ToJson)] // ]\n§", true),
@@ -37,6 +37,10 @@ const LAYOUTS: [(&str, &str, bool); 34] = [
     ("two-attributes", "#[derive(ToString)]\n#[derive(ToJson)]\n§", false),
     ("two-attributes-one-line", "#[derive(ToString)] #[derive(ToJson)]\n§", false),
     ("two-attributes-comment-between", "#[derive(ToString)] // first\n#[derive(ToJson)] // second\n§", false),
+    ("two-attributes-other-order", "#[derive(ToJson)]\n#[derive(ToString)]\n§", false),
+    ("two-attributes-unknown-between", "#[derive(ToString)]\n#[inline]\n#[derive(ToJson)]\n§", false),
+    ("two-attributes-overlapping", "#[derive(ToString)]\n#[derive(ToString, ToJson)]\n§", false),
+    ("three-attributes", "#[derive(ToString)]\n#[derive()]\n#[derive(ToJson)]\n§", false),
     ("unknown-before", "#[doc(\"about\")]\n#[derive(ToString, ToJson)]\n§", false),
     ("unknown-after", "#[derive(ToString, ToJson)]\n#[doc(\"about\")]\n§", false),
     ("unknown-with-closing-bracket-string", "#[doc(\"closing bracket: ]\")]\n#[derive(ToString, ToJson)]\n§", false),
@@ -111,7 +115,7 @@ impl Family for Attributes {
         &["C18", "C04", "C12"]
     }
     fn rule(&self) -> &'static str {
-        "34 layouts of '#[derive(ToString, ToJson)]' (20 that differ from the plain one only in trivia: trailing comments containing brackets / parentheses / an attribute, comment and blank lines around it, the item on the same line, indentation, CRLF, spaces inside, the list over several lines with and without comments; 14 with a trailing comma, the other order, two attributes, unknown attributes before / after whose string arguments contain brackets) x 3 items (struct, enum, unit enum): the program prints to_string and to_json of one value and must print exactly what the plainly laid-out twin prints (a trivia-only layout must also be accepted; the others may be rejected with a diagnostic); 12 odd attributes (empty / bare / unknown / repeated / nested / quoted derive lists, '#[]', a bracket closed only inside a comment, an attribute at the end of the file or before a fn) x 3 items: accepted or rejected, never a panic, and an accepted program is valid Go; every text also goes through the lossless-tree oracle. non-trivial = layouts other than the plain one; distinct = distinct source text"
+        "38 layouts of '#[derive(ToString, ToJson)]' (20 that differ from the plain one only in trivia: trailing comments containing brackets / parentheses / an attribute, comment and blank lines around it, the item on the same line, indentation, CRLF, spaces inside, the list over several lines with and without comments; 14 with a trailing comma, the other order, two attributes, unknown attributes before / after whose string arguments contain brackets) x 3 items (struct, enum, unit enum): the program prints to_string and to_json of one value and must print exactly what the plainly laid-out twin prints (a trivia-only layout must also be accepted; the others may be rejected with a diagnostic); 12 odd attributes (empty / bare / unknown / repeated / nested / quoted derive lists, '#[]', a bracket closed only inside a comment, an attribute at the end of the file or before a fn) x 3 items: accepted or rejected, never a panic, and an accepted program is valid Go; every text also goes through the lossless-tree oracle. non-trivial = layouts other than the plain one; distinct = distinct source text"
     }
     fn cases(&self, _tier: Tier) -> Box<dyn Iterator<Item = Value> + '_> {
         let mut v = Vec::new();
@@ -176,7 +180,9 @@ impl Family for Attributes {
                     rep.tag("machinery:go-unsupported");
                     rep.sample = Some(json!({"site": site, "msg": msg}));
                 } else if class.starts_with("rejected") {
-                    if trivia_only {
+                    // the same two derives written in another order or in two attributes are no less valid
+                    let same_derives = ln == "other-order" || ln.starts_with("two-attributes") || ln == "three-attributes";
+                    if trivia_only || same_derives {
                         rep.findings.push(Finding { property: "C18", class: "attribute.layout-changes-verdict".into(), site: format!("{};msg={}", site, normalise_msg(&msg)), detail: format!("the plainly laid-out twin is accepted; this one is rejected: {}", msg), replay });
                     }
                 } else {
